@@ -84,6 +84,25 @@ def _helper_modulus(call, inf):
 
 def analyse(fn, inf=None):
     """[(node, sequence text, modulus text, ok, why)] for every modular index in fn"""
+    uf = _facts(fn)
+    body = fn.node
+    return _judge(fn, inf, uf, body)
+
+
+def equal_lengths(fn, a, b):
+    """do the length facts of fn show that the sequences spelled `a` and `b` have the same length?"""
+    uf = _facts(fn)
+    return a == b or uf.same("seq:" + a, "seq:" + b)
+
+
+def length_of(fn, name):
+    """the sequence texts whose length the local `name` is known to hold in fn"""
+    uf = _facts(fn)
+    root = uf.find("len:" + name)
+    return [k[4:] for k in list(uf.p) if k.startswith("seq:") and uf.find(k) == root]
+
+
+def _facts(fn):
     uf = UF()
     body = fn.node
     # facts
@@ -154,6 +173,10 @@ def analyse(fn, inf=None):
     for k in list(uf.p):
         if k.startswith("lenname:"):
             uf.union(k, "len:" + k[8:])
+    return uf
+
+
+def _judge(fn, inf, uf, body):
     out = []
     defs = pat.local_defs(fn)
 
